@@ -1,5 +1,11 @@
 package schedulerplugin
 
+import (
+	corev1 "k8s.io/api/core/v1"
+	"tkestack.io/galaxy/pkg/api/galaxy/constant"
+	"tkestack.io/galaxy/pkg/ipam/floatingip"
+)
+
 // BOUND: topology 0 (one pool, 3 IPs); kinds {statefulset, deployment}; policy symbolic over {default, immutable, never}; one pod name, two incarnations (U1, U2); old incarnation finished and/or deleted; 1 housekeeping step (nothing | handle any pending event | resync) before and 1 (plus API release of any IP) after the new incarnation is bound; lister lag after the delete is symbolic; no faults
 func VerifC04_q_reincarnation() {
 	vpReincarnation(vpScenarioOpts{prop: "C04", topos: []int{0}, kinds: []int{vpKindSts, vpKindDp}, earlySteps: 1, lateSteps: 1})
@@ -97,3 +103,63 @@ func VerifC04_q_prefixSiblings() { vpPrefixSiblings("C04") }
 // BOUND: topologies {1,3} (two pools; in topology 1 they share one pod subnet); two statefulset pods bound on nodes of different pools (n1, n2), symbolic policy; then galaxy-ipam restarts or reloads the unchanged configuration through ensureIPAMConf (tables rebuilt from the store); then two more pods are scheduled on any approved node. Every live bound pod keeps its IP and no IP is held by two live pods
 // ASSUME: C04: same scenario as VerifC01_q_reloadKeepsOwnership, checked under C04
 func VerifC04_q_reloadKeepsOwnership() { vpReloadKeepsOwnership("C04") }
+
+// BOUND: topology 0 with all but one address held by other pods; a statefulset pod (symbolic policy) bound and running; a standby instance of galaxy-ipam has an informer cache that stops following at that point; the pod is deleted, its event handled, the same-named pod re-created, bound by the active instance and running; then the standby takes over (new plugin, tables rebuilt from the shared store, but its lagging informer cache: it still holds the first incarnation) and runs one resync pass (and the pod-IP sync pass) before its cache catches up, then another one afterwards. The live pod keeps its IP throughout (the stale cache's answer has to be confirmed with the API server)
+// ASSUME: C04: a standby's informer cache may lag arbitrarily behind the API server but never shows objects that never existed
+func VerifC04_q_failoverStaleCache() { vpFailoverStaleCache("C04") }
+
+func vpFailoverStaleCache(prop string) {
+	w := vpNewWorld(0, prop == "C10")
+	if err := w.configure(); err != nil {
+		return
+	}
+	w.setStatefulSet(2)
+	policy := nondetPick("", "immutable", "never")
+	name := "ss-0"
+	// all but one address belong to other pods, so that both incarnations get the same address (which free address an
+	// allocation picks depends on Go's map iteration order; the replay has to be deterministic)
+	for _, ip := range w.ips[1:] {
+		if err := w.plugin.ipam.AllocateSpecificIP("sts_ns_other_other-"+ip, vpIP(ip), floatingip.Attr{Policy: constant.ReleasePolicyNever}); err != nil {
+			return
+		}
+	}
+	w.createPod(vpMakePod(name, "U1", vpKindSts, policy, "", ""))
+	w.syncListers()
+	nodes, err := w.filter(name, "n1", "n5", "n3")
+	if err != nil || len(nodes) == 0 || w.bind(name, nodes[0]) != nil {
+		return
+	}
+	w.setRunning(name)
+	w.syncListers()
+	// the standby's cache as of now
+	stale := map[string]*corev1.Pod{}
+	for k, v := range w.lPods {
+		stale[k] = v
+	}
+	w.deletePod(name)
+	w.syncListers()
+	for len(w.pending) > 0 {
+		_ = w.handleEvent(0)
+	}
+	w.createPod(vpMakePod(name, "U2", vpKindSts, policy, "", ""))
+	w.syncListers()
+	nodes, err = w.filter(name, "n1", "n5", "n3")
+	if err != nil || len(nodes) == 0 || w.bind(name, nodes[nondetChoice(len(nodes))]) != nil {
+		return
+	}
+	w.setRunning(name)
+	w.syncListers()
+	w.checkAll(prop, "binding the second incarnation")
+	// fail-over: the standby rebuilds its tables from the store but keeps its lagging cache
+	if w.restart() != nil {
+		return
+	}
+	w.lPods = stale
+	verifReach("standby-took-over")
+	w.resync()
+	w.checkAll(prop, "a resync pass of a standby whose informer cache still holds the former incarnation")
+	w.syncListers()
+	w.resync()
+	w.checkAll(prop, "a resync pass after the cache caught up")
+}
+
